@@ -430,6 +430,10 @@ def run(ctx):
                         % v, where, key='EXIT:%s:%s-with-body-unread->continue' % (RECV, v))
     ctx.anchor(n_se >= 1, 'an error raised between length and body reads in ' + RECV)
 
+    # what is delivered is what the peer sent: the payload rule of the receive paths (C06.4) re-run
+    from .c06 import payload_rules as _payload_rules
+    _payload_rules(ctx, 'C19.1-payload-kept')
+
 
 def _outcomes(L, start, loop, recv_bb):
     """Outcomes {'continue','break'} reachable from `start`, propagating constant bools assigned on the
